@@ -114,6 +114,7 @@ def _guarded_check(mod, case, acc, known_keys):
     """Run check_case; known-finding signatures are counted and pass."""
     try:
         try:
+            _seed_global_random(case)
             labels = mod.check_case(case)
         except Violation:
             raise
@@ -135,6 +136,14 @@ def _guarded_check(mod, case, acc, known_keys):
             del labels[k]
     acc.record(case, labels)
     return labels
+
+
+def _seed_global_random(case):
+    """The library draws its reconnection jitter from the global `random`
+    module: seed it from the case, so that search, shrinking and replay of
+    one case are the same pure function of the case."""
+    import random
+    random.seed(int(casemod.digest(case)[:12], 16))
 
 
 def search_shard(args):
@@ -254,6 +263,7 @@ def replay_file(pid, path, quiet=False):
         case = casemod.from_jsonable(json.load(f))
     try:
         try:
+            _seed_global_random(case)
             mod.check_case(case)
         except Violation:
             raise
